@@ -62,9 +62,18 @@ pub fn cleanup_scratch() {
 }
 
 fn rt() -> tokio::runtime::Runtime {
+    paused_rt(0)
+}
+
+/// Current-thread runtime with a paused clock and a FIXED select!/scheduler seed, so that
+/// `tokio::select!` without `biased` (the log's batch_processor) is reproducible. `variant`
+/// selects a different (but still fixed) seed; VERIF_SEED is mixed in.
+pub fn paused_rt(variant: u64) -> tokio::runtime::Runtime {
+    let seed = format!("verif-{}-{}", crate::evidence::seed(), variant);
     tokio::runtime::Builder::new_current_thread()
         .enable_time()
         .start_paused(true)
+        .rng_seed(tokio::runtime::RngSeed::from_bytes(seed.as_bytes()))
         .build()
         .expect("runtime")
 }
@@ -84,6 +93,10 @@ pub fn silence_stdout() -> std::fs::File {
         let saved = libc::dup(1);
         let devnull = libc::open(c"/dev/null".as_ptr(), libc::O_WRONLY);
         libc::dup2(devnull, 1);
+        // the repository also uses eprintln! (e.g. undecodable files); keep stderr only for debugging
+        if std::env::var("VERIF_TRACE").is_err() && std::env::var("C36_DEBUG").is_err() {
+            libc::dup2(devnull, 2);
+        }
         libc::close(devnull);
         std::fs::File::from_raw_fd(saved)
     }
